@@ -490,13 +490,13 @@ Proof.
     rewrite get_put_neq in G'' by auto. congruence.
 Qed.
 
-Lemma Frm_op_set : forall o name v, Frm (op_set o name v).
+Lemma Frm_op_set : forall cfg o name v, Frm (op_set cfg o name v).
 Proof.
   intros. unfold op_set. apply Frm_bind; [apply Frm_gets|]. intros [ob|]; [|apply Frm_raise].
   destruct (okind ob).
   - destruct (ofrozen ob); [apply Frm_raise|]. apply Frm_bind; [apply Frm_gets|]. intros [|]; [apply Frm_raise|].
     destruct (has_us name); [|apply Frm_modify; intros; auto].
-    apply Frm_bind; [apply Frm_gets|]. intros tl. destruct (filter _ tl); apply Frm_modify; intros; auto.
+    apply Frm_bind; [apply Frm_gets|]. intros tl. destruct (filter _ tl); [|destruct (smemb _ _)]; apply Frm_modify; intros; auto.
   - destruct (ofrozen ob); [apply Frm_raise|]. apply Frm_modify; intros; auto.
   - apply Frm_modify; intros; auto.
 Qed.
